@@ -107,6 +107,10 @@ class Engine:
             self.communicator = comm.SimCommunicator(self.loop)
             for kind in self.opts.get('subscribe_timeouts') or []:
                 self.communicator.subscribe_timeouts.add(kind)
+            if self.opts.get('broadcast_fault'):
+                # the k-th state_changed announcement fails with one of the errors the process tolerates
+                index, name = self.opts['broadcast_fault']
+                self.communicator.broadcast_fault = (index, _tolerated_error(name))
             self.controller = plumpy.RemoteProcessController(self.communicator)
             self.thread_controller = plumpy.RemoteProcessThreadController(self.communicator)
         process_communicator = self.communicator
@@ -210,7 +214,7 @@ class Engine:
             proc.add_process_listener(self.listener)
             if self.opts.get('register_twice'):
                 proc.add_process_listener(self.listener)  # registering the same listener again changes nothing
-            if self.opts.get('oneshot'):
+            if self.opts.get('oneshot') or self.opts.get('second'):
                 self.second_listener = make_listener(plumpy, _SecondListener(self))
                 proc.add_process_listener(self.second_listener)
         proc.add_state_event_callback(plumpy.base.state_machine.StateEventHook.ENTERED_STATE, self._entered)
@@ -510,6 +514,14 @@ class Engine:
     def finish(self):
         self.loop.hooks = None
         seams.reset_world()
+
+
+def _tolerated_error(name):
+    import kiwipy
+    from aio_pika.exceptions import ChannelInvalidStateError, ConnectionClosed
+
+    return {'ConnectionClosed': ConnectionClosed, 'ChannelInvalidStateError': ChannelInvalidStateError,
+            'TimeoutError': kiwipy.TimeoutError}[name]('injected')
 
 
 class _SecondListener:
